@@ -142,11 +142,13 @@ type c17Event struct {
 	PB     []int         `json:"pb"`
 	Met    int           `json:"met"`
 	MMet   []int         `json:"mmet"`
+	IM     []int         `json:"im"` // positions (1-based) of the masks that may match; the others never match anything
 }
 
 type c17Summary struct {
 	Leaf              int            `json:"leaf"`
 	DoIfOrder         int            `json:"doif_order_runs"`        // executions of the family "do_if reads a field the plugin rewrites"
+	ManyMasks         int            `json:"many_masks_runs"`        // executions of the family "the matching mask sits behind K silent masks"
 	Stress            int            `json:"stress_runs"`            // executions of Do in the concurrent family
 	RuleStress        int            `json:"rule_stress_runs"`       // of them: masks with match_rules, every instance fed its own values
 	RuleStressOverlap int            `json:"rule_stress_overlapped"` // of them: Do started while another instance was inside Do
@@ -412,6 +414,15 @@ func c17Selections(ng int) [][]int {
 	return res
 }
 
+// c17Seq = [1 .. n]
+func c17Seq(n int) []int {
+	r := make([]int, n)
+	for i := range r {
+		r[i] = i + 1
+	}
+	return r
+}
+
 func c17PathStrs(ps [][]string) []string {
 	var r []string
 	for _, p := range ps {
@@ -545,6 +556,7 @@ func TestVerifC17(t *testing.T) {
 	c17RunLeaves(w, sum, rng, thorough, extraFrac, replay)
 	c17RunEvents(w, sum, rng, thorough, replay)
 	c17RunDoIfOrder(w, sum, replay)
+	c17RunManyMasks(w, sum, replay)
 	c17RunStress(w, sum, rng, thorough, replay)
 
 	w.closeCur()
@@ -946,7 +958,7 @@ func c17RunEvents(w *c17Writer, sum *c17Summary, rng *rand.Rand, thorough bool, 
 			if err := root.DecodeString(doc); err != nil {
 				panic(err)
 			}
-			rec := c17Event{K: "E", GProc: [][]string{}, GIgn: [][]string{}, Masks: descs, AF: "ap",
+			rec := c17Event{K: "E", GProc: [][]string{}, GIgn: [][]string{}, Masks: descs, AF: "ap", IM: c17Seq(len(descs)),
 				After: []c17FLeaf{}, MMet: []int{}, PB: []int{}}
 			info := c17Info{Key: key, Src: doc, Conf: confStr}
 			switch ec.glob.kind {
@@ -1087,7 +1099,18 @@ func c17StressDescs(p0 *Plugin, sm []c17StressMask) []c17MaskDesc {
 // c17StressBefore flattens the decoded event and attaches, per maskable leaf and mask, the regexp's table on
 // the leaf and (second mask) the real result of the first mask alone on it together with the table on that
 func c17StressBefore(p0 *Plugin, sm []c17StressMask, root *insaneJSON.Root) []c17FLeaf {
+	im := []int{0}
+	if len(sm) > 1 {
+		im = []int{0, 1}
+	}
+	return c17BeforeIM(p0, sm, root, im)
+}
+
+// c17BeforeIM: im = positions (0-based) of the masks that may match; all other masks are expected to be silent,
+// their tables (on the leaf and on the first matching mask's result) are logged all the same.
+func c17BeforeIM(p0 *Plugin, sm []c17StressMask, root *insaneJSON.Root, im []int) []c17FLeaf {
 	bf := c17Flatten(root.Node, []string{}, nil)
+	var midPlugin *Plugin
 	for li := range bf {
 		lf := &bf[li]
 		lf.MI = []c17MI{}
@@ -1098,32 +1121,43 @@ func c17StressBefore(p0 *Plugin, sm []c17StressMask, root *insaneJSON.Root) []c1
 		for i, x := range lf.V {
 			vb[i] = byte(x)
 		}
-		for i := range p0.config.Masks {
-			mi := c17MI{Tb: [][]int{}, Mid: []int{}, CWm: []int{}, Tm: [][]int{}}
-			re := p0.config.Masks[i].Re_
-			mi.Tb = c17Table(re, vb)
-			if i == 1 {
-				// the real result of the first mask alone (no do_if, no lists, no rules) on this leaf
-				m0 := sm[0].mask
+		// the real result of the first matching mask alone (no do_if, no lists, no rules) on this leaf
+		var mid []byte
+		first := im[0]
+		if first < len(p0.config.Masks)-1 && p0.config.Masks[first].Re_ != nil {
+			if midPlugin == nil {
+				m0 := sm[first].mask
 				m0.DoIfCheckerMap, m0.ProcessFields, m0.IgnoreFields, m0.MatchRules = nil, nil, nil, nil
 				mp, rej := c17Start(&Config{Masks: []Mask{m0}})
 				if mp == nil {
 					panic("intermediate plugin rejected: " + rej)
 				}
-				r2 := insaneJSON.Spawn()
-				d2 := `{"k":"` + string(vb) + `"}`
-				if lf.T == "n" {
-					d2 = `{"k":` + string(vb) + `}`
+				midPlugin = mp
+			}
+			r2 := insaneJSON.Spawn()
+			d2 := `{"k":"` + string(vb) + `"}`
+			if lf.T == "n" {
+				d2 = `{"k":` + string(vb) + `}`
+			}
+			if err := r2.DecodeString(d2); err != nil {
+				panic(err)
+			}
+			if _, panicked := c17Do(midPlugin, &pipeline.Event{Root: r2}); panicked {
+				panic("intermediate value unavailable")
+			}
+			mid = append([]byte{}, r2.Dig("k").AsBytes()...)
+			insaneJSON.Release(r2)
+		}
+		for i := range p0.config.Masks {
+			mi := c17MI{Tb: [][]int{}, Mid: []int{}, CWm: []int{}, Tm: [][]int{}}
+			if re := p0.config.Masks[i].Re_; re != nil {
+				mi.Tb = c17Table(re, vb)
+				if i > first && mid != nil {
+					mi.Tm = c17Table(re, mid)
+					if len(im) > 1 && i == im[1] {
+						mi.Mid, mi.CWm = c17Ints(mid), c17Widths(mid)
+					}
 				}
-				if err := r2.DecodeString(d2); err != nil {
-					panic(err)
-				}
-				if _, panicked := c17Do(mp, &pipeline.Event{Root: r2}); panicked {
-					panic("intermediate value unavailable")
-				}
-				mid := append([]byte{}, r2.Dig("k").AsBytes()...)
-				insaneJSON.Release(r2)
-				mi.Mid, mi.CWm, mi.Tm = c17Ints(mid), c17Widths(mid), c17Table(re, mid)
 			}
 			lf.MI = append(lf.MI, mi)
 		}
@@ -1434,7 +1468,7 @@ func c17RunStress(w *c17Writer, sum *c17Summary, rng *rand.Rand, thorough bool, 
 		for _, k := range order {
 			oc := merged[k]
 			di, _ := strconv.Atoi(k[:strings.Index(k, "|")])
-			rec := c17Event{K: "E", GProc: [][]string{}, GIgn: [][]string{}, Masks: descs, AF: "ap",
+			rec := c17Event{K: "E", GProc: [][]string{}, GIgn: [][]string{}, Masks: descs, AF: "ap", IM: c17Seq(len(descs)),
 				Before: befores[di], After: []c17FLeaf{}, MMet: []int{}, PB: []int{}, Res: oc.res}
 			info := c17Info{Key: fmt.Sprintf("X|%d|%d", ci, di), Src: docs[di], Conf: confStr, Pmsg: oc.pmsg,
 				Fam: fmt.Sprintf("stress: %d executions with this outcome", oc.n)}
@@ -1546,7 +1580,7 @@ func c17RunDoIfOrder(w *c17Writer, sum *c17Summary, replay map[string]bool) {
 			if err := root.DecodeString(doc); err != nil {
 				panic(err)
 			}
-			rec := c17Event{K: "E", GProc: [][]string{}, GIgn: [][]string{}, Masks: descs, AF: "ap",
+			rec := c17Event{K: "E", GProc: [][]string{}, GIgn: [][]string{}, Masks: descs, AF: "ap", IM: c17Seq(len(descs)),
 				Before: c17StressBefore(p, sm, root), After: []c17FLeaf{}, MMet: []int{}, PB: []int{}}
 			info := c17Info{Key: key, Src: doc, Conf: string(cb), Fam: "doif-order"}
 			m0 := c17Met(p)
@@ -1573,6 +1607,163 @@ func c17RunDoIfOrder(w *c17Writer, sum *c17Summary, replay map[string]bool) {
 			}
 			sum.DoIfOrder++
 			w.put(&rec, info)
+		}
+	}
+}
+
+// ---------------------------------------------------------------- number and index of masks
+
+// The masks that can match (with their own process_fields / ignore_fields, and without) sit behind, between or
+// before K filler masks whose regexps match nothing, K in {0, 1, 62, 63, 64, 65, 130}: the verdict on an event does
+// not depend on the position of a mask in the list (specs/Mask.tla "number and index of masks", MaskSet.tla).
+// Real Start / Do, ordinary "E" records with the positions of the matching masks (im); the fillers' tables are
+// logged too and the specification checks that they are empty.
+func c17RunManyMasks(w *c17Writer, sum *c17Summary, replay map[string]bool) {
+	mAst, mRep := c17Mode{name: "mask0"}, c17Mode{name: "replace", word: "XY"}
+	P := func(s ...string) [][]string {
+		var r [][]string
+		for _, x := range s {
+			r = append(r, strings.Split(x, "."))
+		}
+		return r
+	}
+	mk := func(re string, g []int, md c17Mode) Mask {
+		return Mask{Re: re, Groups: g, MaxCount: md.mc, ReplaceWord: md.word, CutValues: md.cut}
+	}
+	proc := func(m Mask, paths ...string) c17StressMask {
+		m.ProcessFields = paths
+		return c17StressMask{mask: m, cond: []c17Cond{}, proc: P(paths...)}
+	}
+	ign := func(m Mask, paths ...string) c17StressMask {
+		m.IgnoreFields = paths
+		return c17StressMask{mask: m, cond: []c17Cond{}, ign: P(paths...)}
+	}
+	plain := func(m Mask) c17StressMask { return c17StressMask{mask: m, cond: []c17Cond{}} }
+	type layout struct {
+		name       string
+		head       []c17StressMask // matching masks before the fillers
+		tail       []c17StressMask // matching masks after the fillers
+		gproc      []string
+		gign       []string
+		fillerList bool // fillers carry an own process list too (their positions in the per-field sets are used)
+	}
+	layouts := []layout{
+		{name: "process-list mask last", tail: []c17StressMask{proc(mk(`(a)`, []int{1}, mAst), "b.c", "t")}},
+		{name: "ignore-list mask last", tail: []c17StressMask{ign(mk(`(b)`, []int{1}, mRep), "t", "b.d")}},
+		{name: "process-list mask then ignore-list mask, both last", tail: []c17StressMask{
+			proc(mk(`(a)`, []int{1}, mAst), "b", "a"), ign(mk(`(b)`, []int{1}, mRep), "t")}},
+		{name: "process-list mask first, ignore-list mask last", head: []c17StressMask{proc(mk(`(a)`, []int{1}, mAst), "b.c", "t")},
+			tail: []c17StressMask{ign(mk(`(b)`, []int{1}, mRep), "a")}},
+		{name: "mask without own list last, global ignore list", tail: []c17StressMask{plain(mk(`(a)(b)`, []int{1, 2}, mAst))},
+			gign: []string{"b.d", "t"}},
+		{name: "mask without own list last, global process list", tail: []c17StressMask{plain(mk(`(b)`, []int{1}, mRep))},
+			gproc: []string{"b", "t"}},
+		{name: "mask without own list last, no lists", tail: []c17StressMask{plain(mk(`(a)`, []int{0}, mRep))}},
+		{name: "process-list mask last, fillers with own lists", tail: []c17StressMask{proc(mk(`(b)`, []int{1}, mRep), "b.c", "a")},
+			fillerList: true},
+		{name: "ignore-list mask last, fillers with own lists", tail: []c17StressMask{ign(mk(`(a)`, []int{1}, mAst), "b.c", "a")},
+			fillerList: true},
+	}
+	docs := []string{
+		`{"a":"ab","b":{"c":"ba","d":["éab",12,{"e":"ab"}]},"t":"abab","n":21,"z":""}`,
+		`{"t":"bb","b":{"d":["a"],"c":"éaé"},"a":"aab"}`,
+		`{"a":"é","t":"ab","b":{"c":"abba","x":"b"}}`,
+	}
+	root := insaneJSON.Spawn()
+	defer insaneJSON.Release(root)
+	ci := -1
+	for _, K := range []int{0, 1, 62, 63, 64, 65, 130} {
+		for _, lo := range layouts {
+			ci++
+			if replay != nil {
+				any := false
+				for di := range docs {
+					any = any || replay[fmt.Sprintf("K|%d|%d", ci, di)]
+				}
+				if !any {
+					continue
+				}
+			}
+			var sm []c17StressMask
+			var im []int // 0-based
+			for _, h := range lo.head {
+				im = append(im, len(sm))
+				sm = append(sm, h)
+			}
+			for k := 0; k < K; k++ {
+				f := mk(fmt.Sprintf(`(zq%dq)`, k), []int{1}, mAst) // matches nothing over the values used here
+				if lo.fillerList {
+					sm = append(sm, proc(f, "zz", "b.x"))
+				} else {
+					sm = append(sm, plain(f))
+				}
+			}
+			for _, t := range lo.tail {
+				im = append(im, len(sm))
+				sm = append(sm, t)
+			}
+			conf := &Config{MaskAppliedField: "ap", MaskAppliedValue: "1", ProcessFields: lo.gproc, IgnoreFields: lo.gign}
+			for i := range sm {
+				m := sm[i].mask
+				m.AppliedField, m.AppliedValue = "am"+strconv.Itoa(i), "1"
+				m.MetricName = "c17_mask_metric_" + strconv.Itoa(i)
+				conf.Masks = append(conf.Masks, m)
+			}
+			confStr := fmt.Sprintf("%d filler masks; %s; global process %v ignore %v", K, lo.name, lo.gproc, lo.gign)
+			sum.Configs++
+			p, rej := c17Start(conf)
+			if p == nil {
+				sum.Skipped++
+				sum.SkipWhy[rej]++
+				continue
+			}
+			descs := c17StressDescs(p, sm)
+			im1 := make([]int, len(im))
+			for i, x := range im {
+				im1[i] = x + 1
+			}
+			for di, doc := range docs {
+				key := fmt.Sprintf("K|%d|%d", ci, di)
+				if replay != nil && !replay[key] {
+					continue
+				}
+				if err := root.DecodeString(doc); err != nil {
+					panic(err)
+				}
+				rec := c17Event{K: "E", GProc: [][]string{}, GIgn: [][]string{}, Masks: descs, AF: "ap", IM: im1,
+					Before: c17BeforeIM(p, sm, root, im), After: []c17FLeaf{}, MMet: []int{}, PB: []int{}}
+				if lo.gproc != nil {
+					rec.GProc = P(lo.gproc...)
+				}
+				if lo.gign != nil {
+					rec.GIgn = P(lo.gign...)
+				}
+				info := c17Info{Key: key, Src: doc, Conf: confStr, Fam: "many-masks"}
+				m0 := c17Met(p)
+				mm0 := make([]int, len(p.config.Masks))
+				for i := range mm0 {
+					mm0[i] = c17MaskMet(p, i)
+				}
+				pmsg, panicked := c17Do(p, &pipeline.Event{Root: root})
+				if panicked {
+					rec.Res, info.Pmsg = "panic", pmsg
+					rec.PC, rec.PB = c17PanicClass(pmsg)
+					sum.Panics++
+					p, _ = c17Start(conf)
+				} else {
+					rec.Res = "ok"
+					rec.After = c17Flatten(root.Node, []string{}, nil)
+					for li := range rec.After {
+						rec.After[li].MI = []c17MI{}
+					}
+					rec.Met = c17Met(p) - m0
+					for i := range mm0 {
+						rec.MMet = append(rec.MMet, c17MaskMet(p, i)-mm0[i])
+					}
+				}
+				sum.ManyMasks++
+				w.put(&rec, info)
+			}
 		}
 	}
 }
